@@ -126,6 +126,13 @@ class Interp:
                     val = Tok("%s.%s" % (val[1], p[2] if p[2] is not None else p[1]))
                     continue
                 return TOP
+            if p[0] == "i":
+                if val is not None and val[0] == "seq" and 0 <= p[1] < len(val[2]):
+                    val = val[2][p[1]]
+                    if val is not None and val[0] == "ref":
+                        val = self.read_loc(val[1])   # a slice view holds references to the elements
+                    continue
+                return TOP
             if p[0] == "f":
                 if val[0] == "adt":
                     val = val[3].get(p[1], TOP)
@@ -142,6 +149,18 @@ class Interp:
         if not projs:
             return new
         p = projs[0]
+        if p[0] == "i":
+            if val is None or val[0] != "seq" or not (0 <= p[1] < len(val[2])):
+                raise Unsupported("write to an element outside the modelled sequence")
+            items = list(val[2])
+            if items[p[1]] is not None and items[p[1]][0] == "ref":
+                tloc = items[p[1]][1]
+                if projs[1:]:
+                    tloc = tloc[:-1] + (tuple(tloc[-1]) + tuple(projs[1:]),)
+                self.write_loc(tloc, new)
+                return val
+            items[p[1]] = self._set(items[p[1]], projs[1:], new)
+            return ("seq", val[1], items)
         if p[0] != "f":
             return self._set(val, projs[1:], new)
         if val is None or val == TOP or val[0] not in ("adt", "tuple", "closure"):
@@ -196,6 +215,20 @@ class Interp:
                 loc = loc[:-1] + (loc[-1] + (ext,),)
             elif k == "downcast":
                 pass
+            elif k in ("index", "cindex"):
+                cur = self.deref_val(self.read_loc(loc))
+                if cur is None or cur[0] != "seq":
+                    raise Unsupported("indexing a value that is not a modelled sequence")
+                if k == "index":
+                    iv = self.deref_val(self.read_loc(("L", fid, pr[1], ())))
+                    if not is_int(iv):
+                        raise Unsupported("indexing with an undetermined index")
+                    n = iv[1]
+                else:
+                    n = (len(cur[2]) - pr[1]) if pr[3] else pr[1]
+                if not (0 <= n < len(cur[2])):
+                    raise Unsupported("index %d out of bounds of a sequence of %d (panics)" % (n, len(cur[2])))
+                loc = loc[:-1] + (loc[-1] + (("i", n),),)
             else:
                 raise Unsupported("projection %s" % k)
         return loc
@@ -616,7 +649,19 @@ class Interp:
                     self.events.append(("replace", self.tokname(old), [self.tokname(args[1])], site))
                     return old
                 if name == "take":
-                    self.write_loc(a0[1], Tok("default"))
+                    dv = Tok("default")
+                    import re as _re
+                    m = _re.search(r"mem::take::<(.+)>$", full or "")
+                    if m:
+                        dp = "<%s as std::default::Default>::default" % m.group(1)
+                        if dp in self.f.bodies:
+                            try:
+                                dv = self.call_body(dp, [], depth + 1)
+                            except Unsupported:
+                                dv = Tok("default")
+                        elif m.group(1).startswith(OPTION):
+                            dv = NONE
+                    self.write_loc(a0[1], dv)
                     return old
             return TOP
         if name in ("then", "then_some") and len(args) == 2 and is_int(d0) and "bool" in path + full:
